@@ -15,24 +15,43 @@
      Ret    h,tok,res,live,o   API call returned; for a lock: o = tokens of other handed-out contexts that were read
                                live after the return, before the new context was read live
      Rel    tok                the user calls the cancel function        Done tok   the context was seen done
-     Fault / Cut / Stuck / End bookkeeping (Stuck: a WithContext caller stayed parked although the lock was free)
+     Fault h,tok,k,res         an injected failure fired: res = err | cut (the extend script of tok for key k fails with a
+                               non-ErrNotLocked error), acqerr, park, slowext
+     Push   h,k                the server queued an invalidation of key k for locker h's connection (first one only)
+     Cut    h                  locker h's connection dropped (the client delivers the nil invalidation)
+     Stuck / End               bookkeeping (Stuck: a WithContext caller stayed parked although the lock was free)
+   Script records also carry x = the expiry argument, tr = when the command arrived, te = when it executed (ms since the
+   start of the scenario, same clock as the PXAT argument; -1 = not applicable).  Every record carries b, the number of
+   50 ms heartbeats of the driver process so far: deadlines on the library's reaction count heartbeats as well as
+   milliseconds, so that a starved process (loaded machine) is not mistaken for a late library.
    `res = odd` (what a script replied contradicts what it did to the key) matches no action.
 
    Every script event must be explained by the script's transcription below against the key state the specification
    has reconstructed from the earlier events; the C34 safety properties are evaluated on the way.                   *)
-EXTENDS Integers, FiniteSets, Sequences, TLC, Json, IOUtils
+EXTENDS Integers, FiniteSets, Sequences, TLC, Json, IOUtils, LockTimeRule
 
-CONSTANTS K, Maj, PromptMs
+CONSTANTS K, Maj, PromptMs,
+          KnownMs, KnownBeats,              \* a context must be done this long (and this many heartbeats of the driver
+                                            \* process) after its holder was told of a majority of losses
+          ValidityMs, IntervalMs, EpsMs     \* the lockers' KeyValidity / ExtendInterval; truncation to milliseconds
 
 VARIABLES l,        \* position in the trace
           key,      \* key[k]: 0 or the token stored
           st,       \* st[tok]: "try" (seen at the server) | "live" (handed out, not seen done) | "done"
           taint,    \* tokens that lost a key to the environment (expiry, third-party delete, forced take-over)
           lostAt,   \* lostAt[tok]: since when a handed-out, live token is below the majority at the server, -1 = it is not
-          bad       \* violated property names
+          bad,      \* violated property names
+          tm,       \* tm[<<tok, k>>]: [x |-> expiry argument of the last script of tok that wrote key k, e |-> when the last
+                    \*                 fresh one (acquisition, extend with a new expiry) executed]
+          inval,    \* <<h, k>>: an invalidation of key k was sent to locker h (push, dropped connection, own forced acquisition)
+          kl,       \* kl[tok]: <<k, cause>>: the holder of tok was told that the monitoring of key k is over:
+                    \*          "notlocked" (its script found the key taken / deleted / expired), "io" (its script failed otherwise)
+          knownAt,  \* knownAt[tok]: since when a handed-out, live token has been told of a majority of losses, -1 = it has not
+          knownB,   \* knownB[tok]: the heartbeat count at that moment
+          fb        \* fb[h]: when the first API call of locker h began (no try of h started earlier)
 
 TraceLog == ndJsonDeserialize(IOEnv.VERIF_TRACE)
-tvars == <<l, key, st, taint, lostAt, bad>>
+tvars == <<l, key, st, taint, lostAt, bad, tm, inval, kl, knownAt, knownB, fb>>
 Keys == 0..(K-1)
 
 Ev == TraceLog[l]
@@ -51,34 +70,78 @@ LostAfter(kk, stt, now) ==
 \* a handed-out context that is below the majority for longer than PromptMs and still not seen done
 Late(stt, la, now) == \E t \in DOMAIN stt : stt[t] = "live" /\ la[t] >= 0 /\ now - la[t] > PromptMs
 Flag(b, name) == IF b THEN bad \cup {name} ELSE bad
+Flag2(b, name) == IF b THEN {name} ELSE {}
+
+\* losses the holder knows of, by cause; Lock.tla (CancelAtMajorityLoss): the context is cancelled in the very step in which
+\* the monitoring loops that are over - for whatever combination of causes - reach the majority
+KL(f, t) == IF t \in DOMAIN f THEN f[t] ELSE {}
+AddLoss(f, t, k, c) == [y \in DOMAIN f \cup {t} |-> IF y = t THEN KL(f, t) \cup {<<k, c>>} ELSE f[y]]
+KnownKeys(f, t) == {e[1] : e \in KL(f, t)}
+KnownAfterV(f, stt, old, val) ==
+   [t \in DOMAIN stt |-> IF stt[t] = "live" /\ Cardinality(KnownKeys(f, t)) >= Maj
+                            THEN (IF t \in DOMAIN old /\ old[t] >= 0 THEN old[t] ELSE val)
+                            ELSE -1]
+KnownAfter(f, stt, now) == KnownAfterV(f, stt, knownAt, now)
+KnownBAfter(f, stt) == KnownAfterV(f, stt, knownB, Ev.b)
+TooLate(t0, b0) == t0 >= 0 /\ Ev.t - t0 > KnownMs /\ Ev.b - b0 > KnownBeats
+LateKnown(stt, ka, kb) == \E t \in DOMAIN stt : stt[t] = "live" /\ TooLate(ka[t], kb[t])
+
+\* the expiry argument of a script that wrote the key (LockTimeRule.tla)
+TmSet(f, t, k, xx, ee) == [p \in DOMAIN f \cup {<<t, k>>} |-> IF p = <<t, k>> THEN [x |-> xx, e |-> ee] ELSE f[p]]
+ExtTimeOK == IF <<Ev.tok, Ev.k>> \notin DOMAIN tm \/ Ev.x < 0 THEN TRUE
+             ELSE LET o == tm[<<Ev.tok, Ev.k>>] IN
+                  IF Ev.x = o.x THEN RepeatOK(Ev.x, o.x, <<Ev.h, Ev.k>> \in inval)
+                                ELSE FreshOK(Ev.x, o.e, Ev.tr, IntervalMs, ValidityMs, EpsMs)
+\* an acquisition carries (start of its try) + Validity: not before the locker's first call began, not after it arrived
+AcqTimeOK == Ev.x < 0 \/ AcquireOK(Ev.x, IF Ev.h \in DOMAIN fb THEN fb[Ev.h] ELSE 0, Ev.tr, ValidityMs, EpsMs)
+ExtTm == IF Ev.x < 0 THEN tm
+         ELSE IF <<Ev.tok, Ev.k>> \in DOMAIN tm /\ tm[<<Ev.tok, Ev.k>>].x = Ev.x THEN tm
+         ELSE TmSet(tm, Ev.tok, Ev.k, Ev.x, Ev.te)
 
 TraceInit == /\ l = 1 /\ key = [k \in Keys |-> 0] /\ st = <<>> /\ taint = {} /\ lostAt = <<>> /\ bad = {}
+             /\ tm = <<>> /\ inval = {} /\ kl = <<>> /\ knownAt = <<>> /\ knownB = <<>> /\ fb = <<>>
              /\ TLCSet(1, 1)
 
 Reset == /\ Is("RESET") /\ Step
          /\ key' = [k \in Keys |-> 0] /\ st' = <<>> /\ taint' = {} /\ lostAt' = <<>> /\ bad' = {}
+         /\ tm' = <<>> /\ inval' = {} /\ kl' = <<>> /\ knownAt' = <<>> /\ knownB' = <<>> /\ fb' = <<>>
 
 \* effects on the server
-Server(kk, stt, tt, extra) ==
+ServerL(kk, stt, tt, extra, klf) ==
    /\ key' = kk /\ st' = stt /\ taint' = tt
    /\ lostAt' = LostAfter(kk, stt, Ev.t)
+   /\ kl' = klf /\ knownAt' = KnownAfter(klf, stt, Ev.t) /\ knownB' = KnownBAfter(klf, stt)
    /\ bad' = Flag(Late(stt, LostAfter(kk, stt, Ev.t), Ev.t), "Prompt") \cup extra
+                \cup Flag2(LateKnown(stt, KnownAfter(klf, stt, Ev.t), KnownBAfter(klf, stt)), "CancelAtKnownLoss")
+Server(kk, stt, tt, extra) == ServerL(kk, stt, tt, extra, kl)
 
 \* SET key tok NX PXAT ; GET
 Acq == /\ Is("Acq") /\ Step /\ Ev.k \in Keys /\ Ev.tok > 0
        /\ \/ /\ Ev.res = "ok" /\ key[Ev.k] = 0
-             /\ Server([key EXCEPT ![Ev.k] = Ev.tok], Seen(Ev.tok), taint, {})
+             /\ Server([key EXCEPT ![Ev.k] = Ev.tok], Seen(Ev.tok), taint,
+                       Flag2(~AcqTimeOK, "ExtendsInTime"))
+             /\ tm' = (IF Ev.x >= 0 THEN TmSet(tm, Ev.tok, Ev.k, Ev.x, Ev.te) ELSE tm)
           \/ /\ Ev.res = "no" /\ key[Ev.k] # 0
-             /\ Server(key, Seen(Ev.tok), taint, {})
+             /\ ServerL(key, Seen(Ev.tok), taint, {}, AddLoss(kl, Ev.tok, Ev.k, "notlocked"))
+             /\ tm' = tm
+       /\ UNCHANGED inval
 \* SET key tok PXAT ; GET
 Frc == /\ Is("Frc") /\ Step /\ Ev.k \in Keys /\ Ev.tok > 0 /\ Ev.res = "ok"
        /\ Server([key EXCEPT ![Ev.k] = Ev.tok], Seen(Ev.tok),
-                 IF key[Ev.k] \notin {0, Ev.tok} THEN taint \cup {key[Ev.k]} ELSE taint, {})
+                 IF key[Ev.k] \notin {0, Ev.tok} THEN taint \cup {key[Ev.k]} ELSE taint,
+                 Flag2(~AcqTimeOK, "ExtendsInTime"))
+       /\ tm' = (IF Ev.x >= 0 THEN TmSet(tm, Ev.tok, Ev.k, Ev.x, Ev.te) ELSE tm)
+       /\ inval' = inval \cup {<<Ev.h, Ev.k>>}            \* a forced acquisition puts a token into its own csc channel
 \* if GET == tok then PEXPIREAT ; GET ; return 1 else return 0
 Ext == /\ Is("Ext") /\ Step /\ Ev.k \in Keys /\ Ev.tok > 0
        /\ (Ev.res = "ok") <=> (key[Ev.k] = Ev.tok)
        /\ Ev.res \in {"ok", "no"}
-       /\ Server(key, Seen(Ev.tok), taint, {})
+       /\ IF Ev.res = "ok"
+            THEN /\ Server(key, Seen(Ev.tok), taint, Flag2(~ExtTimeOK, "ExtendsInTime"))
+                 /\ tm' = ExtTm
+            ELSE /\ ServerL(key, Seen(Ev.tok), taint, {}, AddLoss(kl, Ev.tok, Ev.k, "notlocked"))   \* the script answered 0
+                 /\ tm' = tm
+       /\ UNCHANGED inval
 \* if GET == tok then DEL
 Del == /\ Is("Del") /\ Step /\ Ev.k \in Keys /\ Ev.tok > 0
        /\ (Ev.res = "ok") <=> (key[Ev.k] = Ev.tok)
@@ -86,11 +149,13 @@ Del == /\ Is("Del") /\ Step /\ Ev.k \in Keys /\ Ev.tok > 0
        /\ Ev.live = "live" => StOf(Ev.tok) = "live"             \* monotone: never live after it was seen done
        /\ Server(IF Ev.res = "ok" THEN [key EXCEPT ![Ev.k] = 0] ELSE key, Seen(Ev.tok), taint,
                  IF Ev.res = "ok" /\ Ev.live = "live" THEN {"DoneBeforeRelease"} ELSE {})
+       /\ UNCHANGED <<tm, inval>>
 \* the key expired / a third party deleted it; a record for a key that is already absent changes nothing (an expiry can be
 \* reported by the lazy path of a command and again by the DEL that found nothing)
 Gone(e) == /\ Is(e) /\ Step /\ Ev.k \in Keys
            /\ IF key[Ev.k] # 0 THEN Server([key EXCEPT ![Ev.k] = 0], st, taint \cup {key[Ev.k]}, {})
                                ELSE Server(key, st, taint, {})
+           /\ UNCHANGED <<tm, inval>>
 
 \* driver side
 Ret == /\ Is("Ret") /\ Step
@@ -101,20 +166,44 @@ Ret == /\ Is("Ret") /\ Step
                     /\ \A j \in 1..Len(Ev.o) : StOf(Ev.o[j]) = "live"
                     /\ st' = stt
                     /\ lostAt' = LostAfter(key, stt, Ev.t)
+                    /\ knownAt' = KnownAfter(kl, stt, Ev.t) /\ knownB' = KnownBAfter(kl, stt)
                     /\ bad' = Flag(Ev.live = "live" /\ both # {}, "MutualExclusion")
                     /\ UNCHANGED <<key, taint>>
-            ELSE UNCHANGED <<key, st, taint, lostAt, bad>>
+            ELSE UNCHANGED <<key, st, taint, lostAt, bad, knownAt, knownB>>
+       /\ UNCHANGED <<tm, inval, kl>>
 Done == /\ Is("Done") /\ Step /\ StOf(Ev.tok) \in {"live", "done"}
         /\ st' = [st EXCEPT ![Ev.tok] = "done"]
         /\ bad' = Flag(lostAt[Ev.tok] >= 0 /\ Ev.t - lostAt[Ev.tok] > PromptMs, "Prompt")
-        /\ UNCHANGED <<key, taint, lostAt>>
-Stuck == /\ Is("Stuck") /\ Step /\ bad' = bad \cup {"NoStuckWaiter"} /\ UNCHANGED <<key, st, taint, lostAt>>
+                   \cup Flag2(Ev.tok \in DOMAIN knownAt /\ TooLate(knownAt[Ev.tok], knownB[Ev.tok]), "CancelAtKnownLoss")
+        /\ UNCHANGED <<key, taint, lostAt, tm, inval, kl, knownAt, knownB>>
+Stuck == /\ Is("Stuck") /\ Step /\ bad' = bad \cup {"NoStuckWaiter"} /\ UNCHANGED <<key, st, taint, lostAt, tm, inval, kl, knownAt, knownB>>
 \* end of a scenario: its verdict is printed (the properties are also INVARIANTS of the strict configuration)
-End == /\ Is("End") /\ Step /\ bad' = Flag(Late(st, lostAt, Ev.t), "Prompt") /\ UNCHANGED <<key, st, taint, lostAt>>
+End == /\ Is("End") /\ Step
+       /\ bad' = Flag(Late(st, lostAt, Ev.t), "Prompt") \cup Flag2(LateKnown(st, knownAt, knownB), "CancelAtKnownLoss")
+       /\ UNCHANGED <<key, st, taint, lostAt, tm, inval, kl, knownAt, knownB>>
        /\ (bad' # {} => PrintT(<<"BAD", l, bad'>>))
-Other == /\ (Is("Begin") \/ Is("Rel") \/ Is("Fault") \/ Is("Cut")) /\ Step /\ UNCHANGED <<key, st, taint, lostAt, bad>>
+\* an injected failure of a script of tok for key k: the caller gets a non-ErrNotLocked error, its monitoring of k is over
+Fault == /\ Is("Fault") /\ Step
+         /\ IF Ev.res \in {"err", "cut", "acqerr"} /\ Ev.tok > 0 /\ Ev.k \in Keys
+              THEN ServerL(key, st, taint, {}, AddLoss(kl, Ev.tok, Ev.k, "io"))
+              ELSE UNCHANGED <<key, st, taint, lostAt, bad, kl, knownAt, knownB>>
+         /\ UNCHANGED <<tm, inval>>
+Push == /\ Is("Push") /\ Step /\ inval' = inval \cup {<<Ev.h, Ev.k>>}
+        /\ UNCHANGED <<key, st, taint, lostAt, bad, tm, kl, knownAt, knownB>>
+CutEv == /\ Is("Cut") /\ Step /\ inval' = inval \cup {<<Ev.h, k>> : k \in Keys}
+         /\ UNCHANGED <<key, st, taint, lostAt, bad, tm, kl, knownAt, knownB>>
+\* the user's release: the context it cancels was live until now
+Rel == /\ Is("Rel") /\ Step
+       /\ bad' = bad \cup Flag2(Ev.tok \in DOMAIN knownAt /\ StOf(Ev.tok) = "live" /\ TooLate(knownAt[Ev.tok], knownB[Ev.tok]),
+                              "CancelAtKnownLoss")
+       /\ UNCHANGED <<key, st, taint, lostAt, tm, inval, kl, knownAt, knownB>>
+Other == /\ Is("Begin") /\ Step /\ UNCHANGED <<key, st, taint, lostAt, bad, tm, inval, kl, knownAt, knownB>>
+         /\ fb' = IF Ev.h \in DOMAIN fb THEN fb ELSE [y \in DOMAIN fb \cup {Ev.h} |-> IF y = Ev.h THEN Ev.t ELSE fb[y]]
 
-TraceNext == Reset \/ Acq \/ Frc \/ Ext \/ Del \/ Gone("Expire") \/ Gone("XDel") \/ Ret \/ Done \/ Stuck \/ End \/ Other
+TraceNext == \/ Reset \/ Other
+             \/ /\ (Acq \/ Frc \/ Ext \/ Del \/ Gone("Expire") \/ Gone("XDel") \/ Ret \/ Done \/ Stuck \/ End
+                    \/ Fault \/ Push \/ CutEv \/ Rel)
+                /\ UNCHANGED fb
 TraceSpec == TraceInit /\ [][TraceNext]_tvars
 
 \* C34
@@ -122,6 +211,8 @@ MutualExclusion == "MutualExclusion" \notin bad
 DoneBeforeRelease == "DoneBeforeRelease" \notin bad
 Prompt == "Prompt" \notin bad
 NoStuckWaiter == "NoStuckWaiter" \notin bad
+CancelAtKnownLoss == "CancelAtKnownLoss" \notin bad
+ExtendsInTime == "ExtendsInTime" \notin bad
 
 HighWater == TLCSet(1, IF l > TLCGet(1) THEN l ELSE TLCGet(1))
 TraceAccepted == \/ TLCGet(1) = Len(TraceLog) + 1
